@@ -367,5 +367,11 @@ pub fn run(ctx: &Ctx) {
 }
 
 pub fn replay(ctx: &Ctx, sub: &str, case: &serde_json::Value, origin: &str) -> bool {
+    if sub == "fuzz_bytes" {
+        let bytes: Vec<u8> = serde_json::from_value(case.clone()).unwrap_or_default();
+        let Ok(s) = String::from_utf8(bytes) else { return true };
+        let c = serde_json::to_value(Case { s, origin: 2 }).unwrap();
+        return ctx.replay_case::<Case, _>("random_strings", &c, oracle, origin);
+    }
     ctx.replay_case::<Case, _>(sub, case, oracle, origin)
 }
